@@ -1577,6 +1577,9 @@ class DynamicBase(BaseSpaceImpl):
             root.parent.clear_itemspace_at(root.argvalues_if)
 
     def set_formula(self, formula):
+        if formula is not None and not isinstance(formula, ParamFunc):
+            # Raise errors before deleting ItemSpaces
+            formula = ParamFunc(formula, name="_formula")
         # The dynamic sub spaces have copied the formula
         if getattr(self, "_dynamic_subs", None):
             self.clear_subs_rootitems()
